@@ -1,7 +1,7 @@
 (* C35 — inner ring nodes outside the alphabet never act with alphabet authority. *)
 From Coq Require Import String List Bool ZArith Lia.
 Import ListNotations.
-From NV Require Import Prog.IR Prog.IRProofs Prog.Tables_C35.
+From NV Require Import Prog.IR Prog.IRProofs Prog.Tables_C35 Prog.C35Member Prog.C35MemberProofs.
 From NV Require Gen.Prog_IR.
 Open Scope string_scope.
 Module G := Gen.Prog_IR.
@@ -61,8 +61,24 @@ Proof.
         repeat rewrite orb_false_r in Hok. discriminate.
 Qed.
 
-Theorem C35_lookup_failure_is_non_member : is_member None = false /\ forall i, (i < 0)%Z -> is_member (Some i) = false.
-Proof. split; [reflexivity|]. intros i Hi. unfold is_member, index_of. apply Z.leb_gt. exact Hi. Qed.
+Theorem C35_lookup_failure_is_non_member : Tables_C35.is_member None = false /\ forall i, (i < 0)%Z -> Tables_C35.is_member (Some i) = false.
+Proof. split; [reflexivity|]. intros i Hi. unfold Tables_C35.is_member, index_of. apply Z.leb_gt. exact Hi. Qed.
+
+(* the membership getters themselves (state.go over indexer.go, model Prog/C35Member.v tied
+   to the real code by the harness): IsAlphabet holds exactly for a key in the alphabet list
+   with both chain lookups succeeding; otherwise the index is negative, which every accepted
+   check shape refuses (previous theorem) *)
+Theorem C35_is_alphabet_iff : forall own ir alpha fi fa,
+  is_alphabet own ir alpha fi fa = true <-> fi = false /\ fa = false /\ In own alpha.
+Proof. exact is_alphabet_iff. Qed.
+
+Theorem C35_non_member_index_negative : forall own ir alpha fi fa,
+  ~ (fi = false /\ fa = false /\ In own alpha) -> (alpha_index own ir alpha fi fa < 0)%Z.
+Proof. exact non_member_negative. Qed.
+
+Theorem C35_is_active_iff : forall own ir alpha fi fa,
+  is_active own ir alpha fi fa = true <-> fi = false /\ fa = false /\ In own ir.
+Proof. exact is_active_iff. Qed.
 
 (* the shape the unrepaired code used in voteForFSChainValidator lets index -1 through *)
 Theorem C35_range_only_shape_refuted :
@@ -80,3 +96,5 @@ Print Assumptions C35_static.
 Print Assumptions C35_non_member_never_acts.
 Print Assumptions C35_shapes_refuse_non_members.
 Print Assumptions C35_lookup_failure_is_non_member.
+Print Assumptions C35_is_alphabet_iff.
+Print Assumptions C35_non_member_index_negative.
